@@ -20,6 +20,7 @@ type c09Case struct {
 	NoAttr bool            `json:"no_attr"`
 	Dot    bool            `json:"dot_notation"`
 	Pol    int             `json:"order_policy"`
+	Dag    string          `json:"map_with_shared_containers,omitempty"` // built by dagMaps()[Dag] ("map" shows it unfolded)
 }
 
 func init() {
@@ -27,6 +28,11 @@ func init() {
 		var k c09Case
 		json.Unmarshal(cas, &k)
 		m := fromJSON(string(k.Map)).(map[string]interface{})
+		if k.Dag != "" {
+			m = dagMaps()[k.Dag]()
+			curDag = k.Dag
+			defer func() { curDag = "" }()
+		}
 		applyCfg(Cfg{AttrPrefix: k.Prefix, KeyPrefix: "#", DotNot: k.Dot})
 		if k.Toggle {
 			c09Toggle(k.Dot)
@@ -129,7 +135,7 @@ func hasEmptyKey(v interface{}) bool {
 func c09Check(c *Ctx, m map[string]interface{}, prefix string, noattr, dot bool) (nontrivial bool) {
 	mv := mxj.Map(m)
 	cas := func() interface{} {
-		return c09Case{Map: json.RawMessage(jsonOf(m)), Prefix: prefix, NoAttr: noattr, Dot: dot, Pol: rt.OrderPolicy, Toggle: c09Toggled}
+		return c09Case{Dag: curDag, Map: json.RawMessage(jsonOf(m)), Prefix: prefix, NoAttr: noattr, Dot: dot, Pol: rt.OrderPolicy, Toggle: c09Toggled}
 	}
 	shape := "plain"
 	if hasEmptyKey(m) {
@@ -243,12 +249,35 @@ func c09Check(c *Ctx, m map[string]interface{}, prefix string, noattr, dot bool)
 
 func c09Run(c *Ctx) {
 	mustBeDefault(c)
-	c.S.Rule = "cases = (Map, attribute prefix, no-attributes, dot-notation): every Map template with <= N nodes over keys {a, y<prefix>z, <prefix>x, #text} (enumeration + resolution clauses) and over {a, \"\", a.b, <prefix>x} (enumeration clause with arbitrary keys incl. the empty key) and over {a, a], ' ', k:} (keys with a closing bracket, a blank-only key, default prefix), leaves incl. null, plus Maps decoded from the U-XML documents and a scale family (lists of 11, 101, 1025 scalars / maps); prefixes {-, @, \"\", attr_} (dot notation set explicitly for two of them and reached through the toggling form for the other two); explicit false and omitted no_attr argument alternate; each under ascending and descending map order; plus every sequence of <= 3 (notation switch in {bare toggle, explicit on, explicit off}, LeafNodes/LeafPaths/LeafValues on one of 4 Maps with lists of different lengths) steps in one process. Results are retained and re-checked after later calls. Oracle: reference leaf list (multiset of path=value), LeafPaths/LeafValues are projections, j2x.JsonLeafNodes / JsonLeafPath / JsonLeafValues of the Map's JSON text agree with them, every leaf path resolves through ValuesForPath to exactly its value. non-trivial = at least one leaf."
+	c.S.Rule = "cases = (Map, attribute prefix, no-attributes, dot-notation): every Map template with <= N nodes over keys {a, y<prefix>z, <prefix>x, #text} (enumeration + resolution clauses) and over {a, \"\", a.b, <prefix>x} (enumeration clause with arbitrary keys incl. the empty key) and over {a, a], ' ', k:} (keys with a closing bracket, a blank-only key, default prefix), leaves incl. null, plus Maps decoded from the U-XML documents, 8 Maps with shared containers (one map or list object reachable at several places: one leaf per path that reaches it) and a scale family (lists of 11, 101, 1025 scalars / maps); prefixes {-, @, \"\", attr_} (dot notation set explicitly for two of them and reached through the toggling form for the other two); explicit false and omitted no_attr argument alternate; each under ascending and descending map order; plus every sequence of <= 3 (notation switch in {bare toggle, explicit on, explicit off}, LeafNodes/LeafPaths/LeafValues on one of 4 Maps with lists of different lengths) steps in one process. Results are retained and re-checked after later calls. Oracle: reference leaf list (multiset of path=value), LeafPaths/LeafValues are projections, j2x.JsonLeafNodes / JsonLeafPath / JsonLeafValues of the Map's JSON text agree with them, every leaf path resolves through ValuesForPath to exactly its value. non-trivial = at least one leaf."
 	c.S.Assumptions = []string{"reference leaf enumeration in harness/c09.go", "resolution clause restricted as the property states (keys free of . [ *, no list-in-list, bracket notation)"}
 	n := 5
 	if c.Thorough {
 		n = 6
 	}
+	// Maps with shared containers: one leaf per path that reaches it
+	for _, name := range dagNames() {
+		mk := dagMaps()[name]
+		for _, dot := range []bool{false, true} {
+			for _, noattr := range []bool{false, true} {
+				if !c.Mine() {
+					continue
+				}
+				applyCfg(Cfg{AttrPrefix: "-", KeyPrefix: "#", DotNot: dot})
+				curDag = name
+				c.S.States++
+				c.S.Evaluations++
+				for _, pol := range []int{rt.PolicySorted, rt.PolicyReverse} {
+					rt.OrderPolicy = pol
+					c09Check(c, mk(), "-", noattr, dot)
+					c.S.Schedules++
+				}
+				rt.OrderPolicy = rt.PolicySorted
+				curDag = ""
+			}
+		}
+	}
+	resetOptions()
 	for _, prefix := range []string{"-", "@", "", "attr_"} {
 		for _, dot := range []bool{false, true} {
 			applied := false
